@@ -22,6 +22,8 @@ Inductive dflt := DTask (t : K) | DOther (d : nat).
 
 Inductive pq_op :=
 | Add (t : K) (p : option Z)      (* add(task, priority); priority None counts as 0 *)
+| AddBad (t : K) (e : exn)        (* add(task, priority) where the priority key REJECTS the priority by raising e
+                                    (float('urgent'), float((1, 2)), a custom priority_key that raises) *)
 | Remove (t : K)
 | Pop (d : option dflt)           (* pop() / pop(default=d) *)
 | Peek (d : option dflt)          (* peek() / peek(default=d) *)
@@ -61,6 +63,7 @@ Definition on_empty (d : option dflt) : pq_obs :=
 Definition spec_step (s : spec_state) (op : pq_op) : spec_state * pq_obs :=
   match op with
   | Add t p => (s_del s t ++ [(t, prio_of p)], ONone)
+  | AddBad t e => (s, OErr e)        (* nothing is added, and a live t keeps its place and priority *)
   | Remove t => if s_mem s t then (s_del s t, ONone) else (s, OErr KeyError)
   | Pop d => match best s with
              | None => (s, on_empty d)
